@@ -66,6 +66,10 @@ pub fn base_events(thorough: bool) -> Vec<(&'static str, EvS)> {
         e.pads[0].3.truncate(1);
         e
     }));
+    // avalanches at and around the last tabulated drift time of their z slice (bins 247 = 3.952 us for the outermost
+    // slice ... 268 = 4.288 us for the central ones)
+    let late: Vec<Hit> = (0..24).map(|i| Hit { wire: 40 + (i % 6), bin: 244 + i, z: if i % 2 == 0 { 0.1013 + 0.01 * i as f64 } else { 1.13 }, amp: 100.0 + i as f64 }).collect();
+    v.push(("avalanches at the last tabulated drift times", hits_event(&late, 0.004, 5)));
     // full ring: all 256 wires with data
     let mut sig = signals(m, 0.004, &[Hit { wire: 255, bin: 20, z: 0.1, amp: 100.0 }, Hit { wire: 0, bin: 20, z: 0.3, amp: 100.0 }, Hit { wire: 128, bin: 50, z: -0.4, amp: 130.0 }]);
     for w in 0..256 {
